@@ -24,6 +24,9 @@ MOLECULES = {
 
 # four-site water: the fourth site is a massless dummy (element X) - centre of MASS and centre of geometry differ
 MOLECULES["H2O_dummy"] = [("O", 0.0, 0.0, 0.0), ("H", 0.0, 0.7570, 0.5860), ("H", 0.0, -0.7570, 0.5860), ("X", 0.0, 0.0, 0.1500)]
+# ideal tetrahedron (all bonds 1.6 A) whose substituents differ only by mass: the unweighted inertia tensor is isotropic
+_t = 1.6 / 3 ** 0.5
+MOLECULES["CX4_ideal"] = [("C", 0.0, 0.0, 0.0), ("F", _t, _t, _t), ("Cl", _t, -_t, -_t), ("Br", -_t, _t, -_t), ("I", -_t, -_t, _t)]
 MOLECULES["CHFClBr_mirror"] = [(el, -x, y, z) for el, x, y, z in MOLECULES["CHFClBr"]]      # the other enantiomer
 
 
